@@ -39,6 +39,21 @@ func main() {
 		os.Exit(cmdLemmas(os.Args[2:]))
 	case "sweep":
 		os.Exit(cmdSweep(os.Args[2:]))
+	case "stdmodels":
+		v, err := load()
+		if err != nil {
+			fmt.Println("ENGINE-ERROR:", err)
+			os.Exit(2)
+		}
+		rep, bad := v.stdModelConformance(200, 5)
+		fmt.Printf("standard-library model conformance: %v wrappers, %v proved from the model, %v runs of the real functions\n", rep["wrappers"], rep["proved_from_model"], rep["real_runs"])
+		for _, b := range bad {
+			fmt.Println("  PROBLEM:", b)
+		}
+		if len(bad) > 0 {
+			os.Exit(1)
+		}
+		os.Exit(0)
 	case "coverage":
 		os.Exit(cmdCoverage())
 	case "specvectors":
